@@ -25,7 +25,7 @@ def _bp(rng, tc, edge_p=0.35, lo_key="T_min_seg", hi_key="T_max_seg"):
     return float(rng.uniform(lo, hi))
 
 
-def draw_coefficients(rng, shape, tc, edge_p=0.35):
+def draw_coefficients(rng, shape, tc, edge_p=0.35, segment_box_only=False):
     """A coefficient document inside the optimiser's box for `shape` (incl. the bounds themselves)."""
     inter = float(rng.uniform(0.5, 100)) if rng.random() < 0.9 else float(rng.uniform(-50, 0))   # net-metered base load
     def slope():
@@ -62,12 +62,12 @@ def draw_coefficients(rng, shape, tc, edge_p=0.35):
         s = slope()
         # single-slope shapes: the initial fit searches [T_min, T_max]; an unsmoothed heating balance point is
         # stored no higher than T_max_seg, an unsmoothed cooling one no lower than T_min_seg
-        box = ("T_min_seg", "T_max_seg") if rng.random() < 0.6 else (("T_min", "T_max") if shape.endswith("smooth") else ("T_min", "T_max_seg"))
+        box = ("T_min_seg", "T_max_seg") if (segment_box_only or rng.random() < 0.6) else (("T_min", "T_max") if shape.endswith("smooth") else ("T_min", "T_max_seg"))
         c.update(hdd_bp=_bp(rng, tc, edge_p, *box), hdd_beta=-s)
         if shape.endswith("smooth"):
             c.update(hdd_k=kabs())
     elif shape in ("tidd_cdd_smooth", "tidd_cdd"):
-        box = ("T_min_seg", "T_max_seg") if rng.random() < 0.6 else (("T_min", "T_max") if shape.endswith("smooth") else ("T_min_seg", "T_max"))
+        box = ("T_min_seg", "T_max_seg") if (segment_box_only or rng.random() < 0.6) else (("T_min", "T_max") if shape.endswith("smooth") else ("T_min_seg", "T_max"))
         c.update(cdd_bp=_bp(rng, tc, edge_p, *box), cdd_beta=slope())
         if shape.endswith("smooth"):
             c.update(cdd_k=kabs())
